@@ -37,6 +37,9 @@ BLANKS = ["", " ", "  ", "\t", " \t "]
 cell = st.one_of(
     st.sampled_from(NUMS), st.sampled_from(NUMS), st.sampled_from(TEXTS), st.sampled_from(BLANKS),
     st.sampled_from(NUMS).map(lambda s: f" {s} "), st.sampled_from(TEXTS).map(lambda s: f"  {s} "),
+    # every character str.strip() removes may pad a cell (tab, vertical tab, form feed, FS/GS/RS/US, NBSP, other Unicode spaces)
+    st.tuples(st.sampled_from(NUMS + ["ab"]), st.sampled_from(["\t", "\x0b", "\x0c", "\x1c", "\x1d", "\x1e", "\x1f", "\xa0", "\u2003", "\u3000"]),
+              st.sampled_from(["pre", "post", "both"])).map(lambda t: (t[1] if t[2] != "post" else "") + t[0] + (t[1] if t[2] != "pre" else "")),
     st.text(max_size=6), st.integers(-10 ** 6, 10 ** 6).map(str), st.floats(allow_nan=False, allow_infinity=False).map(repr),
 )
 header_cell = st.one_of(st.sampled_from(["a", "b", "a", "", " a ", "A", "price ($)", "x,y", "col_0", 'q"', "1"]), st.text(max_size=5))
